@@ -1157,4 +1157,38 @@ theorem chase_hit_ad_discipline (L : Msg → Nat) (cfg : Cfg) (proto : Proto) (q
 example : ((composeChase { nodata with fl := { qr := true, ad := true } } [true, false] [.data .other 1 20 30, .data .other 2 20 30] false qDO0).1.fl.ad,
            (composeChase { nodata with fl := { qr := true, ad := true } } [true, true] [] false qDO0).1.fl.ad) = (false, true) := by decide
 
+/-! ### the rate limiter ahead of edns -/
+
+/-- **An unsupported EDNS version is never answered BADCOOKIE**: the rate
+limiter's cookie exchange leaves it alone, and if the query is let through the
+edns handler answers BADVERS (`badvers_reply`). BADCOOKIE itself is only sent
+over UDP to a version-0 client that did send a cookie. -/
+theorem ratelimit_leaves_bad_version (proto : Proto) (q : Query) (known same allow : Bool) :
+    (∀ o, q.opt = some o → o.version ≠ 0 → ratelimitStep proto q known same allow ≠ .badcookie) ∧
+    (ratelimitStep proto q known same allow = .badcookie →
+      proto = .udp ∧ ∃ o, q.opt = some o ∧ o.version = 0 ∧ (clientCookie o.options).isSome = true) := by
+  constructor
+  · intro o ho hv
+    simp [ratelimitStep, ho, hv]
+    split <;> simp
+  · intro h
+    unfold ratelimitStep at h
+    cases ho : q.opt with
+    | none => rw [ho] at h; simp only at h; split at h <;> cases h
+    | some o =>
+      rw [ho] at h
+      simp only at h
+      split at h
+      · rename_i hc
+        split at h
+        · cases h
+        · split at h
+          · rename_i hp
+            exact ⟨by simpa using hp, o, rfl, hc.1, hc.2⟩
+          · split at h <;> cases h
+      · split at h <;> cases h
+
+example : ratelimitStep .udp { qDO0 with opt := some { udp := 1232, version := 1, options := [.raw codeCookie [1,2,3,4,5,6,7,8]] } } true false true = .next ∧
+    ratelimitStep .udp qDO0 true false true = .badcookie := by decide
+
 end SdnsVerif.Props.C06
